@@ -1,12 +1,15 @@
 """C10 cases: parsing (from_str_radix, FromStr, parse_bytes, from_radix_be/le)."""
 from .common import *
+from . import widthsweep as _ws
+
+HARNESS_BINS_THOROUGH = ["widths"]
 from . import prim as _prim
 
 # the trusted leaf layer (Lean Prim.*) is validated against rustc's primitives in the same run
 HARNESS_BINS = ["c10", "prim"]
 
 
-def ROUTE(line):
+def _route_inner(line):
     return _prim.route(line, "c10")
 
 DIG = "0123456789abcdefghijklmnopqrstuvwxyz"
@@ -149,4 +152,10 @@ def _gen_main(rng, tier):
 
 def gen(rng, tier):
     yield from _gen_main(rng, tier)
+    if tier == "thorough":
+        yield from _ws.parse_print(rng)
     yield from _prim.utf8(rng, tier)
+
+
+def ROUTE(line):
+    return _ws.route(line, None, _route_inner)
